@@ -27,11 +27,11 @@ func NewCtx(p *core.Program) *Ctx {
 // Fact is a comparison known to hold when an instruction executes, or the
 // truth value of a boolean call.
 type Fact struct {
-	Op   token.Token // EQL NEQ LSS LEQ GTR GEQ ; ILLEGAL for boolean facts
-	X, Y ssa.Value
-	Bool ssa.Value // boolean value known to be Truth
+	Op    token.Token // EQL NEQ LSS LEQ GTR GEQ ; ILLEGAL for boolean facts
+	X, Y  ssa.Value
+	Bool  ssa.Value // boolean value known to be Truth
 	Truth bool
-	If   *ssa.If
+	If    *ssa.If
 }
 
 func negate(op token.Token) token.Token {
